@@ -1,8 +1,8 @@
 (* Runs the extracted models of c2mir's function-like macro expansion (PpExpandFn.expand_fn) and of
    its conditional-directive machine (PpCond.c2m_cond), one query per input line.
 
-   F q<a><b> D <name> O <tok>* ; D <name> F <param>* | <tok>* ; ... ; U <tok>*
-       a = q_single_eor, b = q_nl_no_arg (0/1).  Tokens: i<hex> identifier, n<hex> number, p<hex>
+   F q<a><b><c> D <name> O <tok>* ; D <name> F <param>* | <tok>* ; ... ; U <tok>*
+       a = q_single_eor, b = q_nl_no_arg, c = q_plm_ws (0/1).  Tokens: i<hex> identifier, n<hex> number, p<hex>
        punctuator, s<hex> string literal, c<hex> character constant, _ white space, / newline,
        R ## of a replacement list.  <name>, <param> = hex spellings (2e2e2e = `...`).
        Answer: "out <tok>*" (painted identifiers as I<hex>), "err <n>" or "fuel".
@@ -61,7 +61,7 @@ let fuel = nat_of_int 200000
 let run_fn ws =
   match ws with
   | qw :: rest ->
-    let q = { q_single_eor = qw.[1] = '1'; q_nl_no_arg = qw.[2] = '1' } in
+    let q = { q_single_eor = qw.[1] = '1'; q_nl_no_arg = qw.[2] = '1'; q_plm_ws = qw.[3] = '1' } in
     let secs = split_on ";" rest in
     let defs = ref [] and use = ref [] in
     List.iter (fun sec ->
